@@ -24,6 +24,10 @@ def _worker(args):
         _t = time.time()
         if os.environ.get("XMC_TIMING") == "2":
             print("    start %s" % task.get("label"), flush=True)
+        from . import world as _w
+
+        if _w._GUARD:
+            _w._GUARD.reset()  # the branch budget never carries over from an earlier task of this worker
         st = mod.run_task(task)
         st.task_error = None
         if os.environ.get("XMC_TIMING"):
